@@ -11,6 +11,7 @@ CFG = dict(
     n_quick=500, n_thorough=6000, len=(8, 45),
     gen=dict(lock_bias=0.35, max_threads=4, ndeps=1, malformed=0.15),
     exhaustive=wc.stress_parallel_creates,
+    impl_only=wc.stress_impl_only,
     what="locked sections with several commands per entity from several scripted dispatcher threads, nested locks, dump inside the locked section must equal the pre-lock snapshot",
 )
 
